@@ -31,6 +31,10 @@ Definition dec_out (r : res (hdr * N)) : res (list N) :=
 Definition chk_req_dec (d : list N) (exp : option (list N)) : bool := r_bytes_eqb (dec_out (hdr_req_decode d)) exp.
 Definition chk_rsp_dec (d : list N) (exp : option (list N)) : bool := r_bytes_eqb (dec_out (hdr_rsp_decode d)) exp.
 
+(* the harness's independent construction of a conforming reply equals the model's *)
+Definition chk_rsp_frame (h d : list N) (exp : option (list N)) : bool :=
+  r_bytes_eqb (rsp_frame (mk h) d) exp.
+
 Definition mko (l : list bool) : rxopts :=
   match l with [a; b; c; d; e] => mkOpts a b c d e | _ => default_opts end.
 (* expected: 0 = False, 1 = True, 2 = exception *)
